@@ -21,6 +21,7 @@ import CtyModel.Lemmas.d14FormatList
 import CtyModel.Lemmas.d14Date
 import CtyModel.Lemmas.d14Regex
 import CtyModel.Lemmas.d14Json
+import CtyModel.Lemmas.d14Glue
 import CtyModel.Props.C02
 namespace CtyModel
 namespace C14
@@ -538,6 +539,20 @@ theorem csvdecode_result_type (L : Lib) (s : String) (v : Value) (h : csvDecodeI
           | err c => rw [hx] at h; cases h
           | panic w => rw [hx] at h; cases h
           | unmodelled => rw [hx] at h; cases h
+
+/-- `glue_total` for `csvdecode`: `headers[i]` is never out of range, given what csv.Reader
+promises — with `FieldsPerRecord = n` every delivered record has `n` fields (probed on the real
+library on every run: `csv-fields-per-record`). -/
+theorem csvdecode_never_panics (L : Lib) (s : String)
+    (hlaw : ∀ n, ∀ r ∈ (L.csvAll s n).records, r.length = n) :
+    (csvDecodeImpl L [sv s]).isPanic = false :=
+  csvDecodeImpl_no_panic L s hlaw
+
+/-- `glue_total` for `substr`: no panic for any string and any two numbers (fractions and
+numbers outside `int` are errors of the argument conversion). -/
+theorem substr_never_panics (nfc : String → String) (clusters : String → List String) (s : String) (x y : Num) :
+    (substrImpl nfc clusters [sv s, numVal x, numVal y]).isPanic = false :=
+  substrImpl_no_panic nfc clusters s x y
 
 /-! ## format: verb scanner, argument bookkeeping, width / precision on clusters -/
 
